@@ -2,9 +2,9 @@
 # usage: tools/confirm_seed.sh <Cxx> <mN>   -- confirm a sub-agent mutation in its scratch worktree
 # (tests pass with it, demo fails with it and passes without) and store it under seeded/
 set -u
-ID="$1"; M="$2"
-WT="/tmp/wt/$ID"; SRC="$WT/out/$M"
-DEST="/verif/seeded/$ID-$M"
+ID="$1"; M="$2"; OUT="${3:-out}"; PFX="${4:-}"
+WT="/tmp/wt/$ID"; SRC="$WT/$OUT/$M"
+DEST="/verif/seeded/$ID-$PFX$M"
 cd "$WT" || exit 2
 git checkout -q -- src || exit 2
 git apply --check "$SRC/patch.diff" || { echo "patch does not apply"; exit 1; }
@@ -26,7 +26,7 @@ pid, m, dest, tests, rc0, rc1 = sys.argv[1:7]
 notes = ''
 try: notes = open(dest + '/notes.md').read()
 except OSError: pass
-meta = {'property': pid, 'id': '%s-%s' % (pid, m), 'source': 'independent sub-agent given only the property text and a scratch worktree',
+meta = {'property': pid, 'id': dest.rstrip('/').split('/')[-1], 'source': 'independent sub-agent given only the property text and a scratch worktree',
         'needs_to_manifest': notes[:1500],
         'confirmed': {'tests_with_patch': tests.strip(), 'demo_exit_without_patch': int(rc0), 'demo_exit_with_patch': int(rc1),
                       'how': 'tools/confirm_seed.sh: git apply in scratch worktree, full pytest, demo with and without'}}
